@@ -4,6 +4,7 @@
 //	vcheck <property> <quick|thorough>         run a check
 //	vcheck <property> --replay <file>          re-execute a replay file against the current tree
 //	vcheck <property> --selftest               determinism self-test (many seeds × 2 × GOMAXPROCS)
+//	vcheck <property> --weavetest              the woven packages' own unit tests against the woven build
 //
 // Exit codes: 0 property held on everything explored (known findings possibly listed),
 // 1 at least one unlisted violation (a line "VIOLATION property=<id> replay=<path>" is printed),
@@ -47,6 +48,8 @@ func main() {
 		os.Exit(cmdReplay(env, spec, os.Args[3]))
 	case "--selftest":
 		os.Exit(cmdSelftest(env, spec, base))
+	case "--weavetest":
+		os.Exit(cmdWeavetest(env, spec))
 	case "quick", "thorough":
 		tier := os.Args[2]
 		if t := os.Getenv("VERIF_TIER"); t == "quick" || t == "thorough" {
